@@ -220,6 +220,61 @@ func genImage(t *sim.Tape) *imgFile {
 			}
 		}
 		f.ref = [][]byte{ref}
+	} else if t.Chance(1, 2) {
+		// an animation: several frames with their own rectangles, optional
+		// local palettes and an optional transparent index. The driver decodes
+		// every frame into the same pixel buffer with the SRC blend, so the
+		// expected canvas after frame k is the canvas after frame k-1 with frame
+		// k's rectangle overwritten (transparent pixels become transparent
+		// black).
+		f.kind = 1
+		nf := 2 + t.Draw(4)
+		if nf > maxImgFrames {
+			nf = maxImgFrames
+		}
+		mkPal := func(off int) color.Palette {
+			n := 2 + t.Draw(60)
+			pal := make(color.Palette, n)
+			for i := range pal {
+				pal[i] = color.NRGBA{px[(4*i+off)%len(px)], px[(4*i+1+off)%len(px)], px[(4*i+2+off)%len(px)], 0xFF}
+			}
+			if t.Chance(1, 2) {
+				pal[t.Draw(n)] = color.NRGBA{0, 0, 0, 0} // the transparent index
+			}
+			return pal
+		}
+		global := mkPal(0)
+		g := &gif.GIF{Config: image.Config{ColorModel: global, Width: w, Height: h}}
+		canvas := make([]byte, w*h*4)
+		for k := 0; k < nf; k++ {
+			r := image.Rect(0, 0, w, h)
+			if k > 0 && t.Chance(2, 3) {
+				x0, y0 := t.Draw(w), t.Draw(h)
+				r = image.Rect(x0, y0, x0+1+t.Draw(w-x0), y0+1+t.Draw(h-y0))
+			}
+			pal := global
+			if t.Chance(1, 3) {
+				pal = mkPal(7 * (k + 1))
+			}
+			m := image.NewPaletted(r, pal)
+			for i := range m.Pix {
+				m.Pix[i] = uint8(int(px[(i*5+k*11)%len(px)]) % len(pal))
+			}
+			g.Image = append(g.Image, m)
+			g.Delay = append(g.Delay, t.Draw(20))
+			g.Disposal = append(g.Disposal, gif.DisposalNone)
+			for y := r.Min.Y; y < r.Max.Y; y++ {
+				for x := r.Min.X; x < r.Max.X; x++ {
+					copy(canvas[(y*w+x)*4:], bgra(m.At(x, y)))
+				}
+			}
+			f.ref = append(f.ref, append([]byte(nil), canvas...))
+		}
+		if err := gif.EncodeAll(&buf, g); err != nil {
+			fmt.Fprintln(os.Stderr, "csim: gif encoder (animation):", err)
+			os.Exit(2)
+		}
+		f.desc = fmt.Sprintf("go gif animation, %d frames", nf)
 	} else {
 		f.kind = 1
 		n := 2 + t.Draw(255)
